@@ -41,6 +41,7 @@ def body(ctx):
     # arrives for a slot that is already gone and must be ignored - the frame-level obligations of C09, decided here as well
     import c09
     c09.body(ctx)
+    token_range(ctx, prog)
     roles = {}
     for v in viol:
         roles.setdefault(v[0], v)
@@ -202,6 +203,69 @@ fn verif_replay_c20() {
     }
 }
 '''
+
+
+def token_range(ctx, prog):
+    """every id a channel can have - 1 ..= 65535 - is also a token the dispatcher hands to that channel's handler: a wake-up for an
+    open channel with a request queued is served whatever its id (no id falls into the catch-all)"""
+    ex = io_executor(ctx, prog, extra=mio_summaries() + [(r'^HeartbeatTimers::record_rx_activity$', lambda e, s, f, a: [(s, Unit())])])
+    f = prog.method('IoLoop', 'handle_steady_event')
+    a = z3.BitVec('chan_a', 16)
+    st, w = build_steady(prog, [('A', a, {'consumers': 0})])
+    MV = prog.types.variants('IoLoopMessage')
+    buf = ByteVec('req', b64(8), [{'kind': 'req', 'pos': b64(0), 'len': b64(8)}])
+    w.slots['A']['rx'].queue.append(Enum(MV.index('Send'), {MV.index('Send'): Agg({0: Agg({0: buf}, 'OutputBuffer')})}, 'IoLoopMessage'))
+    st.pc.append(w.slots['A']['rx'].tx_alive)
+    cell, poll = mk_ioloop(prog, w)
+    bad = []
+    for (s, rv) in ex.run(st, f, [Ref(cell), Ref(Cell(Unit(), 'stream')), Ref(w.state), mk_event(READABLE, z3.ZeroExt(48, a))], bind={'S': 'VerifStream'}):
+        w1 = s.roots['w']
+        ok = not isinstance(rv, Panic) and err_name(prog, rv) == 'Ok' and [it['kind'] for it in w1.outbuf.items[1:]] == ['req'] and len(w1.slots['A']['rx'].queue) == 0
+        m = ctx.decide(f"{ctx.pid.lower()}.token-range", s.pc, z3.BoolVal(bool(ok)), group='a wake-up for an open channel is dispatched to that channel whatever its id in 1..=65535')
+        if m is not None:
+            bad.append((m.eval(a, model_completion=True).as_long(), str(rv)[:80]))
+    if bad:
+        ids = sorted({1, 65534, 65535, bad[0][0]})
+        ctx.report('channel-token-not-dispatched', f"wake-up for open channel {bad[0][0]}: {bad[0][1]}", {'channel_id': bad[0][0], 'outcome': bad[0][1]}, TOKEN_TEST.replace('IDS', ', '.join(f'{i}u16' for i in ids)),
+                   inject_into='src/io_loop/mod.rs', profiles=('dev',), panic_is_violation=True)
+
+
+TOKEN_TEST = r"""
+use super::*;
+use super::connection_state::ConnectionState;
+struct VS2;
+impl std::io::Read for VS2 { fn read(&mut self, _: &mut [u8]) -> std::io::Result<usize> { Err(std::io::Error::new(std::io::ErrorKind::WouldBlock, "wb")) } }
+impl std::io::Write for VS2 { fn write(&mut self, b: &[u8]) -> std::io::Result<usize> { Ok(b.len()) } fn flush(&mut self) -> std::io::Result<()> { Ok(()) } }
+impl mio::Evented for VS2 {
+    fn register(&self, _: &mio::Poll, _: mio::Token, _: mio::Ready, _: mio::PollOpt) -> std::io::Result<()> { Ok(()) }
+    fn reregister(&self, _: &mio::Poll, _: mio::Token, _: mio::Ready, _: mio::PollOpt) -> std::io::Result<()> { Ok(()) }
+    fn deregister(&self, _: &mio::Poll) -> std::io::Result<()> { Ok(()) }
+}
+impl crate::IoStream for VS2 {}
+#[test]
+fn verif_replay_token_range() {
+    let mut bad: Vec<String> = Vec::new();
+    for id in [IDS].iter() {
+        let id = *id;
+        let r = std::panic::catch_unwind(|| {
+            let mut io = IoLoop::new(crate::ConnectionTuning::default()).unwrap();
+            io.inner.outbuf.clear();
+            io.inner.chan_slots.set_channel_max(65535);
+            let (ch0_slot, _h0) = Channel0Slot::new(4);
+            let (slot, mut handle) = ChannelSlot::new(4, id);
+            io.inner.chan_slots.insert(Some(id), |_| Ok((slot, ()))).unwrap();
+            handle.call_nowait(amq_protocol::protocol::basic::AMQPMethod::Ack(amq_protocol::protocol::basic::Ack { delivery_tag: 1, multiple: false })).unwrap();
+            let mut state = ConnectionState::Steady(ch0_slot);
+            let r = io.handle_steady_event(&mut VS2, &mut state, mio::Event::new(mio::Ready::readable(), mio::Token(id as usize)));
+            let out = (r.is_ok(), io.inner.outbuf.len());
+            std::mem::forget(handle); std::mem::forget(_h0);
+            out
+        });
+        match r { Ok((true, n)) if n > 0 => (), Ok((ok, n)) => bad.push(format!("id={}:ok={}:appended={}", id, ok, n)), Err(_) => bad.push(format!("id={}:PANIC", id)) }
+    }
+    if bad.is_empty() { println!("VERIF-REPLAY-OK"); } else { println!("VERIF-REPLAY-VIOLATION channel-token-not-dispatched {}", bad.join(";")); }
+}
+"""
 
 
 def native_replay(v):
